@@ -452,8 +452,7 @@ Conversion<Unit::AngularAcceleration, Unit::AngularAcceleration::RevolutionPerSq
 }
 
 template <typename NumericType>
-inline const std::map<Unit::AngularAcceleration,
-                      std::function<void(NumericType* values, const std::size_t size)>>
+inline const ConversionTable<Unit::AngularAcceleration, NumericType>
     MapOfConversionsFromStandard<Unit::AngularAcceleration, NumericType>{
       {Unit::AngularAcceleration::RadianPerSquareSecond,
        Conversions<Unit::AngularAcceleration, Unit::AngularAcceleration::RadianPerSquareSecond>::
@@ -505,8 +504,7 @@ inline const std::map<Unit::AngularAcceleration,
 };
 
 template <typename NumericType>
-inline const std::map<Unit::AngularAcceleration,
-                      std::function<void(NumericType* const values, const std::size_t size)>>
+inline const ConversionTable<Unit::AngularAcceleration, NumericType>
     MapOfConversionsToStandard<Unit::AngularAcceleration, NumericType>{
       {Unit::AngularAcceleration::RadianPerSquareSecond,
        Conversions<Unit::AngularAcceleration, Unit::AngularAcceleration::RadianPerSquareSecond>::
